@@ -169,14 +169,89 @@ theorem C18_report (s : Sig) (hwf : s.wf = true) (c : Call) (o i : Bool) (F : Fu
   rw [List.map_congr_left (fun p hp => e1 p (List.mem_append_left _ hp)),
       List.map_congr_left (fun p hp => e1 p (List.mem_append_right _ hp))]
 
-/-! ### Direct construction of a symbolized class (stated; tied by correspondence only) -/
+/-! ### Direct construction of a symbolized class -/
 
-/-- `Cls(*a, **k)` for `Cls = pg.symbolize(UserClass)` binds as the user's `__init__` does.
-Not proved yet (the correspondence run and the exhaustive small-scope enumeration of the thorough
-tier support it; no counterexample is known). -/
-def C18_direct_Full : Prop :=
-  ∀ (s : Sig) (c : Call), s.wf = true → c.wf = true → AvoidsVarargsName s c →
-    classInit s c = pyCall s c
+/-- `Cls(*a, **k)` for `Cls = pg.symbolize(UserClass)` binds as the user's `__init__` does: what
+`__init__` sees is the language's assignment for `(a, k)`, or construction fails with the same
+class of error — for every signature and every call. (Model of class_wrapper.py with
+fixes/C18-F61.patch.) -/
+theorem C18_direct {R : Type} (body : Assignment → R) (s : Sig) (hwf : s.wf = true) (c : Call)
+    (hc : c.wf = true) (ha : AvoidsVarargsName s c) :
+    (classInit s c).map body = (pyCall s c).map body := by
+  rw [classInit_eq s hwf c hc ha]
+
+/-! ### Construction-time errors -/
+
+/-- `F(*a, **k)` is refused at construction exactly when the language cannot distribute the
+arguments over the parameters (too many positionals, multiple values, unexpected keyword), and
+then with the same exception class; missing arguments are not an error at construction (partial
+binding) — they are reported by the call (`C18_construct`). -/
+theorem C18_construct_errors (s : Sig) (hwf : s.wf = true) (c : Call) (o i : Bool)
+    (hc : c.wf = true) (ha : AvoidsVarargsName s c) :
+    (∃ e, nameArgs s c = .error e) ↔ functorInit s c o i = .error .typeError := by
+  constructor
+  · rintro ⟨e, he⟩; exact functorInit_of_err s c o i hc ha e he
+  · intro h
+    cases hn : nameArgs s c with
+    | error e => exact ⟨e, rfl⟩
+    | ok n =>
+      obtain ⟨F, hF⟩ := functorInit_of_named s hwf c o i hc ha n hn
+      rw [hF] at h; cases h
+
+/-- Construction-time binding, total form: `F(*a, **k)()` — construction followed by an empty
+call — has the outcome of `f(*a, **k)` for EVERY call. -/
+theorem C18_construct_total {R : Type} (body : Assignment → R) (s : Sig) (hwf : s.wf = true)
+    (c : Call) (o i : Bool) (hc : c.wf = true) (ha : AvoidsVarargsName s c) :
+    (match functorInit s c o i with
+     | .error e => (Except.error e : Except PyErr Assignment)
+     | .ok F => functorCall true F Call.empty none none).map body = (pyCall s c).map body := by
+  cases hn : nameArgs s c with
+  | error e =>
+    rw [functorInit_of_err s c o i hc ha e hn, pyCall_of_named_err hn]
+  | ok n =>
+    obtain ⟨F, hF⟩ := functorInit_of_named s hwf c o i hc ha n hn
+    rw [hF]
+    exact C18_construct body s hwf c o i F n hc ha hF hn
+
+/-! ### The effective direct call -/
+
+/-- `C18_call` stated against a literal direct call: if `effective` (the direct call that supplies
+the merged arguments — everything by keyword, or positionally when there are surplus positionals)
+is defined, the two-stage functor call has the outcome of `f(*eff.args, **eff.kwargs)`. -/
+theorem C18_call_effective {R : Type} (body : Assignment → R) (s : Sig) (hwf : s.wf = true)
+    (c1 c2 : Call) (o i : Bool) (o? i? : Option Bool) (F : Functor) (eff : Call)
+    (h1 : c1.wf = true) (h2 : c2.wf = true)
+    (ha1 : AvoidsVarargsName s c1) (ha2 : AvoidsVarargsName s c2)
+    (hF : functorInit s c1 o i = .ok F)
+    (heff : effective s c1 c2 (i?.getD i) = .ok eff)
+    (hcompat : o?.getD o = true ∨
+      ∀ n1 n2, nameArgs s c1 = .ok n1 →
+        nameArgs s (if i?.getD i = true then dropExtras s c2 else c2) = .ok n2 → conflicts n1 n2 = false) :
+    (functorCall true F c2 o? i?).map body = (pyCall s eff).map body := by
+  unfold effective at heff
+  cases hn1 : nameArgs s c1 with
+  | error e => rw [hn1] at heff; cases heff
+  | ok n1 =>
+    rw [hn1] at heff
+    simp only at heff
+    cases hn2 : nameArgs s (if i?.getD i = true then dropExtras s c2 else c2) with
+    | error e => rw [hn2] at heff; cases heff
+    | ok n2 =>
+      rw [hn2] at heff
+      cases heff
+      have hc2' : (if i?.getD i = true then dropExtras s c2 else c2).wf = true := by
+        split
+        · have hnd : (keys c2.kwargs).Nodup := by simpa [Call.wf] using h2
+          simp only [Call.wf, dropExtras]
+          split
+          · rw [keys_filter (fun k => s.names.contains k)]
+            exact decide_eq_true (List.Nodup.sublist List.filter_sublist hnd)
+          · exact decide_eq_true hnd
+        · exact h2
+      have hw := namedWF_merge (namedWF_of_nameArgs hwf h1 hn1) (namedWF_of_nameArgs hwf hc2' hn2)
+      rw [pyCall_toCall s hwf _ hw]
+      exact C18_call body s hwf c1 c2 o i o? i? F n1 n2 h1 h2 ha1 ha2 hF hn1 hn2
+        (hcompat.imp id (fun h => h n1 n2 hn1 hn2))
 
 /-! ### Non-vacuity -/
 
